@@ -169,10 +169,39 @@ def judge(rec, reference, predicted):
     return bad
 
 
+def replay(ctx, exe, lib):
+    """./check C08 --replay <file>: re-execute a stored kill experiment or re-validate a stored trace"""
+    recs = C.load_replay(ctx.replay)
+    head = recs[0]
+    if "rejected" in head:
+        C.replay_trace(ctx, recs)
+    else:
+        v = next(x for x in C.ALL_VARIANTS if x[0] == head["variant"])
+        vid, mode, kind = v
+        cache = os.path.join(ctx.tmp, "%s-ref0" % vid)
+        rc, out, mp, calls, ends = C.record(ctx, exe, C.occa_env(ctx, lib, cache), mode, kind, cache + ".strace")
+        if rc != 0:
+            raise Broken("the undisturbed build of %s failed:\n%s" % (vid, C.tail(out, 15)))
+        namer = C.Namer(cache)
+        evs, pts = C.project(mp, calls, namer)
+        sc, j = head["call"].split("#")
+        p = next(x for x in pts if x["sc"] == sc and x["j"] == int(j))
+        rec = kill_once(ctx, exe, lib, vid, mode, kind, p, os.path.join(ctx.tmp, "%s-replay" % vid), dict(namer.dirmap),
+                        C.reference_of(cache, namer))
+        print("replayed kill at %s: state=%s followup=%s" % (rec.get("at"), rec.get("state"), rec.get("followup")))
+        for s, w in (judge(rec, C.reference_of(cache, namer), None) if "problem" not in rec else []):
+            ctx.mismatch(s, w, [{k: rec.get(k) for k in ("variant", "k", "call", "at", "state", "followup", "final_state")}])
+    ctx.cov.update({"evaluations": 1, "distinct_nontrivial": 1, "rule": "replay of " + os.path.basename(ctx.replay)})
+    ctx.samples = [head]
+    return ctx.finish(exhaustive=False)
+
+
 def run(ctx):
     ctx.level = "fault_enumeration"
     jobs = int(os.environ.get("VERIF_JOBS", "8" if ctx.tier == "quick" else "16"))
     exe, lib = ctx.build_harness("cache_build", ["cache_build.cpp"], variant="fast")
+    if ctx.replay:
+        return replay(ctx, exe, lib)
     mres, mthreads = model_runs(ctx, jobs)
     hists = C.model_histories(ctx)
 
@@ -193,31 +222,7 @@ def run(ctx):
         list(ex.map(rec_ref, C.VARIANTS))
 
     runs = [(False, refs[v[0]]["events"], True) for v in C.VARIANTS]      # fresh cache, nobody else, children recorded
-    rej = C.validate_traces(ctx, runs, "refs")
-    if rej is not None:
-        # re-execute the rejected trace alone before reporting
-        again = C.validate_traces(ctx, [runs[rej["run"]]], "again")
-        if again is not None:
-            ev = again["event"] or {}
-            sig = "trace:%s:%s:%s:%s" % (again["reason"], ev.get("e"), ev.get("f") or ev.get("d"), "tmp" if ev.get("t") else "final")
-            ctx.mismatch(sig, "the recorded build of %s is rejected by CacheFSTrace at event %d %s: %s"
-                         % (C.VARIANTS[rej["run"]][0], again["event_index"], {k: ev.get(k) for k in ("e", "n", "s")}, again["reason"]),
-                         [{"variant": C.VARIANTS[rej["run"]][0], "rejected": again["reason"], "event_index": again["event_index"]}]
-                         + [{k: e[k] for k in ("e", "n", "t", "r", "s")} for e in runs[rej["run"]][1]])
-        # the remaining traces, one by one (a known deviation must not hide another one)
-        for i, rr in enumerate(runs):
-            if i == rej["run"]:
-                continue
-            o = C.validate_traces(ctx, [rr], "one%d" % i)
-            if o is not None:
-                ev = o["event"] or {}
-                ctx.mismatch("trace:%s:%s:%s:%s" % (o["reason"], ev.get("e"), ev.get("f") or ev.get("d"), "tmp" if ev.get("t") else "final"),
-                             "the recorded build of %s is rejected by CacheFSTrace at event %d: %s" % (C.VARIANTS[i][0], o["event_index"], o["reason"]),
-                             [{k: e[k] for k in ("e", "n", "t", "r", "s")} for e in rr[1]])
-            else:
-                ctx.traces_validated += 1
-    else:
-        ctx.traces_validated += len(runs)
+    ctx.traces_validated += C.validate_many(ctx, runs, "refs", lambda i: "the recorded build of %s" % C.VARIANTS[i][0])
 
     # ---- the script of the model is the script of the code (event by event)
     conform = {}
